@@ -18,3 +18,13 @@ package fuse
 // (the parameter is called path: the package is reached through an alias-free wrapper)
 //@ spec pathEq(p []string, q []string) bool
 //@   body len(p) == len(q) && (forall k int :: 0 <= k && k < len(p) ==> p[k] == q[k])
+
+// ReadDirAll (C20): PARTIAL check -- no directory entry is derived from a
+// padding file: every inode computed for an entry inside the loop (a leaf OR
+// the sub-directory a file lives in) comes from a file that is not padding and
+// (that the file lies within the listed directory is not stated here).
+//@ func (directory).ReadDirAll
+//@   modifies *
+//@   assertcall [nopad] @fileInode :: !f.Padding
+//@   focus    assert:nopad
+//@   props    C20
